@@ -14,6 +14,11 @@ def poly(t, atoms):
         if pred(t):
             return {(name,): Fraction(1)}
     h = t[0]
+    if h == "field" and t[2] == "0" and t[1][0] == "bin" and "WithOverflow" in t[1][1]:
+        b = t[1]
+        return poly(("bin", b[1].replace("WithOverflow", ""), b[2], b[3]), atoms)
+    if h == "cast" and t[1] == "IntToInt":
+        return poly(t[2], atoms)
     if h == "const" and isinstance(t[2], (int, float)):
         return {(): Fraction(t[2]).limit_denominator(1 << 40)} if t[2] != 0 else {}
     if h == "bin" and t[1] in ("Add", "Sub", "Mul"):
